@@ -246,7 +246,12 @@ impl NoGoodStore {
                 NoGood::try_from_pair_iter(&mut val.iter().filter_map(|ng| ng.conclude(nogood)))
             })
             .try_fold(&mut result, |acc, ng| {
-                if ng.is_violating(acc) {
+                let both = (&ng.active).bitand(&acc.active);
+                if !(&both)
+                    .bitand(&ng.value)
+                    .bitxor((&both).bitand(&acc.value))
+                    .is_empty()
+                {
                     log::trace!("ng conclusion violating");
                     None
                 } else {
